@@ -463,7 +463,7 @@ func TestVerif_C07(t *testing.T) {
 			if r.Thorough() {
 				limit = 32 << 10
 				allocLimit = 16 << 20
-				mutantBudget = 6000000
+				mutantBudget = 2200000
 			}
 			cands := vfCorpusScan(512, maxSize)
 			skipped, nFocused, nFocusMax := 0, 0, 6
